@@ -2419,6 +2419,17 @@ class KmipEngine(object):
                             initial_date,
                             value.value
                         )
+                    elif name == "Sensitive":
+                        value = value.value
+                        if value != attribute:
+                            self._logger.debug(
+                                "Failed match: "
+                                "the specified sensitive flag ({}) does not "
+                                "match the object's sensitive flag "
+                                "({}).".format(value, attribute)
+                            )
+                            add_object = False
+                            break
                     else:
                         if value != attribute:
                             add_object = False
